@@ -387,6 +387,29 @@ def random_sentences(ctx, tally, n, muts):
             m = g.mutate(toks)
             a2, b2 = locate(ctx.rng, m, ctx.rng.random() < 0.5)
             mutated.append(b2)
+    # long inputs: hundreds of statements in one parser's life (many of them calls closed right after '(' or after a
+    # trailing comma), and calls nested far deeper than any script nests them -- what the parser accepts does not depend
+    # on how much it has already parsed, and nesting has no limit
+    longs = []
+    for j in range(12 if ctx.thorough else 4):
+        toks = []
+        for _ in range(ctx.rng.choice([80, 150, 300])):
+            k = ctx.rng.random()
+            if k < 0.35:
+                toks += ["LET", g.ident(), "EQ"] + g.ref() + ["LP"] + (g.expr(1) + ["COMMA"] if ctx.rng.random() < 0.6 else []) + ["RP", "SEMI"]
+            elif k < 0.6:
+                toks += g.ref() + ["LP", "RP", "SEMI"]
+            else:
+                toks += g.stmt()
+        toks += g.ref() + ["LP"] + g.expr(1) + ["RP", "SEMI"]
+        longs.append(locate(ctx.rng, toks, True)[j % 2])
+    for depth in (70, 130, 300):
+        toks = []
+        for _ in range(depth):
+            toks += g.ref() + ["LP"]
+        toks += g.literal() + ["RP"] * depth + ["SEMI"] + g.ref() + ["LP", "RP", "SEMI"]
+        longs.append(locate(ctx.rng, toks, True)[0])
+    compare(ctx, tally, "long-histories-and-deep-nesting", longs)
     compare(ctx, tally, "random-sentences", plain)
     compare(ctx, tally, "random-sentences-split-into-lines", split)
     compare(ctx, tally, "single-token-mutations", mutated)
